@@ -389,11 +389,20 @@ func (p *plRun) walkE(cf plConfig, trace []string, prev *ssa.BasicBlock, ints in
 				break
 			}
 			isBoolPhi := types.Identical(ph.Type().Underlying(), types.Typ[types.Bool])
-			if !types.Identical(ph.Type(), types.Typ[types.Int]) && !isBoolPhi {
+			isErrPhi := isErrorType(ph.Type())
+			if !types.Identical(ph.Type(), types.Typ[types.Int]) && !isBoolPhi && !isErrPhi {
 				continue
 			}
 			for pi, pb := range cf.blk.Preds {
 				if pb == prev {
+					if isErrPhi {
+						if o := p.errOutcome(ph.Edges[pi], ints); o == outSuccess || o == outFail {
+							upd[ph] = int64(o)
+						} else {
+							drop = append(drop, ph)
+						}
+						continue
+					}
 					if isBoolPhi {
 						if bv, ok := constBool(ph.Edges[pi]); ok {
 							upd[ph] = b2i(bv)
@@ -560,7 +569,27 @@ func (p *plRun) run(cf plConfig, start int, trace []string, ints intEnv) {
 					p.unknown(in.Pos(), trace, "match() with a non-constant token")
 					return
 				}
-				lastMatch = &matchInfo{in, k}
+				// the path forks on the outcome, which becomes a path fact about the
+				// returned error (tested right away or after a merge)
+				if !fact.mustBe(k) {
+					i2 := ints.clone()
+					i2[in] = outFail
+					p.run(plConfig{blk: cf.blk, dfa: dfa, fact: fact.without(k), pending: pending}, idx+1, append([]string(nil), trace...), i2)
+				}
+				if fact.canBe(k) {
+					p.events++
+					e := "consume:" + c.A.TokName[k]
+					n, ok := p.spec.next(dfa, e)
+					tr := append(append([]string(nil), trace...), e)
+					if !ok {
+						p.fail(in.Pos(), tr, fmt.Sprintf("event %q is not allowed here (%s; automaton state %d)", e, p.spec.events, dfa))
+					} else {
+						i2 := ints.clone()
+						i2[in] = outSuccess
+						p.run(plConfig{blk: cf.blk, dfa: n, fact: tokFact{}, pending: pending}, idx+1, tr, i2)
+					}
+				}
+				return
 			case callee == c.A.ParseExpr:
 				if p.spec.trackAppend && pending {
 					p.fail(in.Pos(), trace, "the previously parsed element was not stored before the next element is parsed")
